@@ -19,6 +19,12 @@ CHECKS = {
         text="Real validate+apply of ArrayAssignment2Loops, Reference2ArrayRange, ArrayAccess2Loop, AllArrayAccess2Loop, Abs/Sign/Min/Max/DotProduct/Matmul 2Code and Sum/Product/Minval/Maxval 2Loop on every matching node of a generated array-notation family (overlapping/shifted/strided sections, differing declared lower bounds and dimension positions, masks, DIM, empty extents). The original statement is executed with native Fortran semantics (right-hand side and mask evaluated before any store) and the lowered code as loops; one z3 query per pair decides equality of every observable for all inputs and all extents <= E. Counterexamples are replayed through gfortran (bounds checking on).",
         note="Bounds: extents and trip counts <= 3 (quick) / 4 (thorough), exact reals, HUGE as a symbolic bound; non-linear products are retried under an uninterpreted-function abstraction (sound for unsat). Programs = enumerated G-A family; inputs = solver. Trusted: fparser2, z3, fsym, gfortran for replay.",
         ref="5/C06"),
+    "C07": dict(
+        level="translation_validation", engine="fsym",
+        technique="SMT translation validation: z3 decides equivalence of the caller executed with real call semantics vs the inlined text (all inputs incl. index variables of actual arguments), plus an in-bounds obligation on the inlined code",
+        text="Real InlineTrans validate+apply (no force) on every call site of a generated caller/callee family (element+index actuals, sections and whole arrays against assumed-shape / shifted / explicit-shape formals, expression and literal actuals, name clashes, optional and named arguments, module variables, calls in loops). The original is executed symbolically with argument association fixed at the call; the inlined routine as straight code. One z3 query per call site decides equality of all caller observables for all inputs and extents <= E, and a second query decides that the inlined code stays inside the declared bounds whenever the original does. Counterexamples are replayed through gfortran with bounds checking.",
+        note="Bounds: extents and trip counts <= 3 (quick) / 4 (thorough); exact arithmetic; callers/callees = enumerated G-I family; inputs = solver. Assumes the original conforms to Fortran's argument-aliasing rules. Trusted: fparser2, z3, fsym, gfortran for replay.",
+        ref="5/C07"),
     "C17": dict(
         level="other", engine="verdict-oracle",
         technique="SMT oracle on analysis verdicts: each positive verdict of the real SymbolicMaths/distance code is refuted or confirmed by z3 over all integer valuations",
